@@ -100,7 +100,7 @@ def step (st : St) (j : Json) : Except String St := do
     pure (ovResult st (putH st.h st.ov (← Wire.getStr j "l") (← strsOr j "p") v))
   | "add" =>
     let v ← reg st j "v"
-    pure (ovResult st (addH st.h st.ov (← Wire.getStr j "l") v))
+    pure (ovResult st (ovAddH st.h st.ov (← Wire.getStr j "l") v))
   | "populate" =>
     match ← Wire.getNode j "d" with
     | .cont kvs => pure (ovResult st (populateH st.h st.ov (← Wire.getStr j "l") (← strsOr j "p") kvs))
@@ -113,9 +113,9 @@ def step (st : St) (j : Json) : Except String St := do
       let st := snaps.foldl (fun st p => push st (some p.2)) st
       pure { st with outs := st.outs.push (Wire.strs snaps.names) }
   | "lookup" =>
-    pure (push st (lookupH st.h st.ov (← Wire.getStr j "l") (← strsOr j "p")))
+    pure (push st (ovLookupH st.h st.ov (← Wire.getStr j "l") (← strsOr j "p")))
   | "lookupAny" =>
-    pure (push st (lookupAnyH st.h st.ov (← strsOr j "p")))
+    pure (push st (ovLookupAnyH st.h st.ov (← strsOr j "p")))
   | "merged" =>
     let o ← HeapWire.getOpt j
     match mergedH o st.h st.ov with
